@@ -121,6 +121,7 @@ type layerStats struct {
 	Sigs     map[string]int `json:"-"`
 	Complete bool           `json:"complete"`
 	Total    int            `json:"programs_in_layer"`
+	CPU      float64        `json:"cpu_s"`
 }
 
 type wmsg struct {
@@ -179,6 +180,7 @@ outer:
 		ls := &layerStats{Name: l.name, What: l.what, Outcomes: map[string]int{}, Total: l.n, Complete: true}
 		stats = append(stats, ls)
 		first := (shard - base%nw + nw) % nw // first i with (base+i)%nw == shard
+		t0 := time.Now()
 		for i := first; i < l.n; i += nw {
 			gi := base + i
 			if gi < start {
@@ -187,6 +189,7 @@ outer:
 			if time.Now().After(deadline) {
 				capped = fmt.Sprintf("deadline in layer %s at program %d of %d", l.name, i, l.n)
 				ls.Complete = false
+				ls.CPU = time.Since(t0).Seconds()
 				for _, l2 := range layers[li+1:] {
 					stats = append(stats, &layerStats{Name: l2.name, What: l2.what, Outcomes: map[string]int{}, Total: l2.n})
 				}
@@ -230,6 +233,7 @@ outer:
 			}
 		}
 		base += l.n
+		ls.CPU = time.Since(t0).Seconds()
 	}
 	if slot != nil {
 		binary.LittleEndian.PutUint64(slot[0:], 0)
@@ -505,6 +509,7 @@ func main() {
 			m.Steps += ls.Steps
 			m.Frames += ls.Frames
 			m.Reverts += ls.Reverts
+			m.CPU += ls.CPU
 			if ls.MaxDepth > m.MaxDepth {
 				m.MaxDepth = ls.MaxDepth
 			}
